@@ -15,7 +15,7 @@ EFF_FAMILIES = {
     "C07": ["READS-rng"],
     "C08": ["INIT", "FRAME-book"],
     "C09": ["FRAME-cfg"],
-    "C10": ["POP-own"],
+    "C10": ["POP-own", "LEN"],
     "C11": ["POOL-pure"],
     "C12": ["READS-dir", "READS-rng"],
     "C15": ["FRAME-view", "FRAME-book", "POP-own"],
@@ -79,6 +79,17 @@ def _eff_component(R, pid):
             if cls not in readers and cls != "kernel":
                 R.obligation(f"B.{cls}.READS-dir", "reads", "discharged", "EFF", "effect-system", 0.0,
                              "no read of Agent.fitness, Task.minmax or TaskType in the class", "")
+    if "LEN" in fams:
+        from .elite import classify_len
+        lens = classify_len(an.src)
+        for c in json.load(open(os.path.join(VERIF, "expectations.json"))).get("len_structural", []):
+            verdict = lens.get(c)
+            ok = verdict is not None and verdict[0]
+            R.obligation(f"B.{c}.LEN", "len", "discharged" if ok else "refuted", "EFF", "effect-system", 0.0,
+                         (verdict[1] if verdict else "class missing"), "")
+            if not ok:
+                R.violation(f"B.{c}.LEN", f"{c} no longer conserves the population size structurally: {verdict[1] if verdict else 'class missing'}",
+                            {"replay_kind": "none"}, no_input=True)
     if "ELITE" in fams:
         exp = json.load(open(os.path.join(VERIF, "expectations.json")))["elitist"]
         for c in exp:
